@@ -305,10 +305,12 @@ def evalFn (fn : Fn) (wp : Nat) (x y : Mpf) : Option Mpf :=
 
 /-- `vectorize_with_mpmath(fn, flush_subnormals=kw, extra_prec_multiplier=mnum/mden,
 extra_prec=extra)(x[, y])` on scalar floats of format `f`: the result's bit pattern.
-`none`: outside the modelled fragment. -/
+`none`: outside the modelled fragment (special operands of binary functions; negative total
+extra precision, where `float2mpf` itself rounds its input at the reduced context precision). -/
 def call (f : Fmt) (kw : Option PyVal) (dflt : PyVal) (mnum : Int) (mden : Nat) (extra : Int)
     (fn : Fn) (bx by_ : Nat) : Option Out :=
   let wp := workPrec f.p mnum mden extra
+  if extraPrec f.p mnum mden extra < 0 then none else
   match evalFn fn wp (float2mpf f bx) (float2mpf f by_) with
   | none => none
   | some r => some (mpf2float f (initFlush kw dflt) r none .n)
